@@ -4,7 +4,7 @@ from .fam_cert import CertFam
 from .prop_C03 import REPLICA_TRUST
 
 PROP = Property(
-    "C10", ["HsVerif.Props.C10"], [ReplicaFam("c10"), CertFam("c10")],
+    "C10", ["HsVerif.Props.C10", "HsVerif.Props.C10Inert"], [ReplicaFam("c10"), CertFam("c10")],
     facts=[
         {"func": "server/server.go:serviceImpl.Propose", "order": ["PeerIDFromContext", "GetBlock", "ProposalFromProto", "AddEvent"]},
         {"func": "server/server.go:serviceImpl.Vote", "order": ["PeerIDFromContext", "AddEvent"]},
@@ -18,11 +18,11 @@ PROP = Property(
     ],
     trusted=REPLICA_TRUST + ["gorums delivers a decoded message to the handler and does not recover handler panics (checked by reading gorums v0.10.0 server.go); gRPC peer identity comes from connection metadata / TLS"],
     assumptions=["the Kauri service (tree contributions) is not driven through its handler here; its message shape is a signature and a view, covered at the certificate level by C02/C09"],
-    partial="'unverified input leaves the state unchanged' is proved as state_moves_on_evidence (votes and view changes need verified certificates) and checked by the oracle on marked inert inputs; a general Lean statement for high QC / lock / committed block is not proved",
+    partial=None,
 )
 
 META = {
-    "text": "Proof: no_panic — in the replica model no delivered event (arbitrary proposal, vote, timeout, new-view content, local timeout), in any state, leads to the model's panic; the only panicking operation left after the fix: commits is VerifyAggregateQC on an aggregate QC without signature (an existing repository test demands it) and both call sites are proved guarded. state_moves_on_evidence: every signed vote and every view change carries a verified certificate (C03, C07). Tie (this is where the Go-level nil dereferences live): messages are converted with ToProto, optional fields are REMOVED on the protobuf message (every optional part of proposals, votes, timeouts, new-views: block, QC, signature, hash, parent, commands, timestamp, aggregate QC, sync info, TC, peer id), sent through the real proto.Marshal/Unmarshal and the REAL gorums service handlers (serviceImpl.Propose/Vote/NewView/Timeout, reached through an overlay export) of a running replica in varied states, under recover; the model predicts every answer (panic or effects + state dump), an oracle flags any panic and any state change / effect on inputs in which nothing verifies. Three schemes, cache on and off, three rulesets. BLS signatures whose bytes do not decode (cut short on the wire, trunc=) go the same way. The certificate family of C02 runs here too: certificates with mutually inconsistent fields (duplicate signers, participant counts that disagree with the QC map, unsigned genesis QC against its twin with a present-but-empty signature, nil signatures) through VerifyQuorumCert / VerifyTimeoutCert / VerifyAggregateQC / VerifyAnyQC of the real Authority.",
+    "text": "Proof: no_panic — in the replica model no delivered event (arbitrary proposal, vote, timeout, new-view content, local timeout), in any state, leads to the model's panic; the only panicking operation left after the fix: commits is VerifyAggregateQC on an aggregate QC without signature (an existing repository test demands it) and both call sites are proved guarded. state_moves_on_evidence: every signed vote and every view change carries a verified certificate (C03, C07). inert_input_changes_nothing (Props/C10Inert): for one delivered proposal, vote, timeout or new-view in which nothing verifies — the block's QC and aggregate QC, the vote's signature (for ANY signer: the voting machine credits a vote to its signer, not to its sender — relayed_vote_counts), the timeout's view signature and every certificate of a sync info fail against the replica's signature table whatever blocks it can fetch — delivered to a replica with an empty event queue and no deferred events in a view >= 1, the protocol state (view, high QC, high TC, lock, committed block, vote history, last voted view, last timeout, last proposed view) is unchanged and NO effect is produced (nothing signed, nothing sent, no view change, no commit); inert_input_strong / inert_input_then_deferred: the same for the weaker 'the first check fails' and with deferred events present (the step then equals processing the re-queued deferred events alone). view_zero_counterexample shows why the view must be >= 1 (views start at 1). Tie (this is where the Go-level nil dereferences live): messages are converted with ToProto, optional fields are REMOVED on the protobuf message (every optional part of proposals, votes, timeouts, new-views: block, QC, signature, hash, parent, commands, timestamp, aggregate QC, sync info, TC, peer id), sent through the real proto.Marshal/Unmarshal and the REAL gorums service handlers (serviceImpl.Propose/Vote/NewView/Timeout, reached through an overlay export) of a running replica in varied states, under recover; the model predicts every answer (panic or effects + state dump), an oracle flags any panic and any state change / effect on inputs in which nothing verifies. Three schemes, cache on and off, three rulesets. BLS signatures whose bytes do not decode (cut short on the wire, trunc=) go the same way. The certificate family of C02 runs here too: certificates with mutually inconsistent fields (duplicate signers, participant counts that disagree with the QC map, unsigned genesis QC against its twin with a present-but-empty signature, nil signatures) through VerifyQuorumCert / VerifyTimeoutCert / VerifyAggregateQC / VerifyAnyQC of the real Authority.",
     "note": "Trusted: as C03; protobuf; gorums handler plumbing. Seven panics on absent fields were found this way on the original tree and fixed (three fix: commits); the model describes the repaired code.",
     "technique": "Lean 4 proof of panic-freedom of the handler model (mvcgen) + structure-directed wire fuzzing through the real handlers, differential against the model",
 }
